@@ -78,10 +78,13 @@ theorem any_rangeElems (a b : Int) (k : Kind) (x : Int) (hk : RangeK k) (ha : in
 def RangeLeftOK (c : SCfg) (l : Node) : Prop :=
   ∀ ctx, ∃ r : R Val, eval c ctx l = SM.lift r ∧ ∀ v, r = .ok v → ∃ k x, v = .int k x ∧ RangeK k
 
-def InRangeOK (c : SCfg) : Node → Prop
+def InRangeOK (c : SCfg) (fl : Flags) : Node → Prop
   | .binary _ op l (.binary _ rop (.int mf a) (.int mt b)) =>
     (op = "in" ∨ op = "not in") → rop = ".." →
-      IntLitOK mf a ∧ IntLitOK mt b ∧ RangeLeftOK c l ∧ (c.rangeSizeSigned = true → a ≤ b + 1)
+      IntLitOK mf a ∧ IntLitOK mt b ∧
+      ((fl.inRangeKindGuard = true → rangeKd l.kd = true) → (fl.inRangeSimpleLeft = true → simpleLeft l = true) →
+        RangeLeftOK c l) ∧
+      (c.rangeSizeSigned = true → a ≤ b + 1)
   | _ => True
 
 theorem bind_pure' {α : Type} (m : SM α) : (m >>= fun v => pure v) = m := by
@@ -127,7 +130,7 @@ theorem eval_conj (ctx : Ctx) (m mg ml mf mt : Meta) (l : Node) (a b : Int) (k :
   simp only [pure_bind, cmp_ge k x a hk ha.2, cmp_le k x b hk hb.2, lift_ok, asBool]
   cases decide (toI k x ≥ a) <;> simp
 
-theorem inRange_sound (fl : Flags) (N : Node) (hg : InRangeOK c N) (st : St) : Sim c (inRangeRule fl N st).1 N := by
+theorem inRange_sound (fl : Flags) (N : Node) (hg : InRangeOK c fl N) (st : St) : Sim c (inRangeRule fl N st).1 N := by
   unfold inRangeRule
   split
   · rename_i m op l mr rop mf a mt b
@@ -137,12 +140,22 @@ theorem inRange_sound (fl : Flags) (N : Node) (hg : InRangeOK c N) (st : St) : S
       simp only [Bool.and_eq_true, Bool.or_eq_true, beq_iff_eq] at hcond
       obtain ⟨hop, hrop⟩ := hcond
       subst hrop
-      obtain ⟨ha, hb, hleft, hsg⟩ := hg hop rfl
+      obtain ⟨ha, hb, hleft', hsg⟩ := hg hop rfl
       split
       · exact sim_refl c _
-      · split
+      · rename_i hk
+        split
         · exact sim_refl c _
         · -- the rewrite fires
+          rename_i hsl
+          have hleft : RangeLeftOK c l := by
+            refine hleft' (fun hf => ?_) (fun hf => ?_)
+            · cases hr : rangeKd l.kd with
+              | true => rfl
+              | false => exact absurd (by simp [hf, hr]) hk
+            · cases hr : simpleLeft l with
+              | true => rfl
+              | false => exact absurd (by simp [hf, hr]) hsl
           have hc : 0 ≤ rangeCounted c a b := by
             simp only [rangeCounted]
             split
